@@ -172,3 +172,49 @@ func verifC04RetryRules() {
 	rn2, rerr2 := c.Read(buf)
 	vAssert(rn2 == 0 && rerr2 != nil, "after the abort nothing is readable")
 }
+
+// verifC04AlertConsistency: whatever is wrong with a hello (pinned fixed part, raw
+// symbolic extension block, with keys configured), whenever NewConn refuses it the
+// returned error class and the alert written to the client agree, exactly one
+// alert record is written, the transport is closed and nothing is readable.
+// This covers truncations and length corruptions of every structure the parser
+// looks into (SNI, ALPN, supported_versions, ECH, the extension framing).
+func verifC04AlertConsistency() {
+	maxE := 12 + 4*vTier()
+	E := vInt(0, maxE)
+	ext := vBytes(E)
+	hello := vCat([]byte{0x03, 0x03}, vBytes(32), []byte{0x00, 0x00, 0x02, 0x13, 0x01, 0x01, 0x00}, vU16(E), ext)
+	msg := vCat([]byte{0x01}, vU24(len(hello)), hello)
+	rec := vCat([]byte{0x16, 0x03, 0x01}, vU16(len(msg)), msg)
+	tr := newVTransport(rec)
+	c, err := NewConn(context.Background(), tr, WithKeys(vC08Key()))
+	if err == nil {
+		vAssert(len(tr.out) == 0 && !tr.closed, "an accepted or passed-through hello writes nothing to the client")
+		vReach("ok")
+		return
+	}
+	vReach("refused")
+	var desc byte
+	switch {
+	case errors.Is(err, ErrUnexpectedMessage):
+		desc = 10
+	case errors.Is(err, ErrIllegalParameter):
+		desc = 47
+	case errors.Is(err, ErrDecodeError):
+		desc = 50
+	case errors.Is(err, ErrDecryptError):
+		desc = 51
+	case errors.Is(err, ErrMissingExtension):
+		desc = 109
+	default:
+		vFail("the error returned for a refused hello belongs to one of the documented classes")
+	}
+	vAssert(len(tr.out) == 7 && tr.out[0] == 0x15 && tr.out[3] == 0 && tr.out[4] == 2 && tr.out[5] == 2, "exactly one fatal alert record")
+	vAssert(len(tr.out) == 7 && tr.out[6] == desc, "the alert matches the returned error class")
+	vAssert(tr.closed, "end of stream after the alert")
+	if c != nil {
+		buf := make([]byte, 8)
+		n, _ := c.Read(buf)
+		vAssert(n == 0, "nothing is forwarded")
+	}
+}
